@@ -83,12 +83,24 @@ def analyse_metric(repo: Repo, rep: Report, file: str, cname: str, fwd_atoms: Di
         rep.violation("ACC", comp, f"compute() reads mutable state {stale}", f"the result of compute() depends on {stale}, which is neither a registered accumulator nor restored by reset(): a value remembered from an earlier accumulation can be returned after reset()/further updates", node=comp.node)
         n += 1
     rets = returns_of(comp.node)
+    # compute() may not modify anything it reads: an in-place method on an accumulator (clamp_, add_, ...) is reported here
+    # because the quotient analysis below may not get that far
+    early_writes = False
+    for c_ in ast.walk(comp.node):
+        if isinstance(c_, ast.Call) and isinstance(c_.func, ast.Attribute) and c_.func.attr.endswith("_") and not c_.func.attr.startswith("__"):
+            ch_ = attr_chain(c_.func.value)
+            if ch_ and ch_.startswith("self.") and ch_[5:] in bufs:
+                rep.violation("ACC", comp, f"compute(): {unparse(c_)[:70]}", f"compute() modifies the accumulator `{ch_}` in place: reading the metric changes what is accumulated, so later results depend on whether compute() was called in between (a compute() on the empty state turns total = 0 into 1 for good: every later rate is errors / (total + 1))", node=c_)
+                n += 1
+                early_writes = True
     if len(rets) != 1:
         rep.undecided("ACC", comp, "compute()", f"{len(rets)} returns")
     else:
-        e = rets[0].value
-        if isinstance(e, ast.Call) and call_name(e) == "torch.tensor" and e.args:
-            e = e.args[0]
+        from ..astutil import Inliner
+
+        e = Inliner(comp).inline(rets[0].value)
+        while isinstance(e, ast.Call) and ((call_name(e) == "torch.tensor" and e.args) or (isinstance(e.func, ast.Attribute) and e.func.attr in ("to", "float", "double") and not (call_name(e) or "").startswith("torch."))):
+            e = e.args[0] if call_name(e) == "torch.tensor" else e.func.value
         if isinstance(e, ast.BinOp) and isinstance(e.op, ast.Div):
             num, den = e.left, e.right
             num_attrs = {attr_chain(a) for a in ast.walk(num) if isinstance(a, ast.Attribute) and (attr_chain(a) or "").count(".") == 1 and attr_chain(a).startswith("self.")}
@@ -102,7 +114,7 @@ def analyse_metric(repo: Repo, rep: Report, file: str, cname: str, fwd_atoms: Di
             ok = err_attr is not None and numt == single(err_attr) and guard and dent in (single(f"max({tot_attr},1)"), single(f"max(1,{tot_attr})"))
             rep.check(bool(ok), "ACC", comp, f"compute: {unparse(rets[0].value)}", f"rate = {err_attr} / max({tot_attr}, 1): exact fraction with zero guard", "compute() is not errors / max(total, 1) over the two accumulators", node=rets[0])
             n += 1
-        else:
+        elif not early_writes:
             rep.undecided("ACC", comp, f"compute: {unparse(rets[0].value)}", "not a quotient")
     if err_attr is None:
         return n
@@ -181,7 +193,9 @@ def analyse_metric(repo: Repo, rep: Report, file: str, cname: str, fwd_atoms: Di
     tcw.run({})
     for ch, kind, val, st in tcw.attr_writes:
         n += 1
-        if ch in zeroed:
+        if ch in (err_attr, tot_attr):
+            rep.violation("ACC", comp_m, st, f"compute() modifies the accumulator `{ch}` ({kind}): reading the metric changes what is accumulated, so a later result depends on whether (and when) compute() was called in between - e.g. a compute() on the empty state turns total = 0 into 1 for good and every later rate is errors / (total + 1)", node=st)
+        elif ch in zeroed:
             rep.ok("ACC", comp_m, st, "state written by compute() is restored by reset()", node=st, nontrivial=False)
         else:
             rep.violation("ACC", comp_m, st, f"compute() writes `{ch}`, which reset() does not restore: after reset() the metric still carries information from the previous accumulation (a value computed before the reset can be returned after it)", node=st)
